@@ -129,7 +129,7 @@ def judge(ctx, w, lock, cache, want, sig, detail, now):
 def preimages(seed, ln=16):
     right = env.sym(seed, 'c15.pre%d' % ln, ln)
     wrong = bytes([right[0] ^ 1]) + right[1:]
-    return {'right': right, 'wrong': wrong, 'filler': b'\x00'}
+    return {'right': right, 'wrong': wrong, 'filler': b'\x00', 'filler2': b'\x00\x00', 'filler32': b'\x00' * 32, 'filler-1': b'\x00\x01'}
 
 
 def time_grid(ctx, case):
@@ -361,7 +361,7 @@ def cross_case(ctx, case):
     lock = build_lock(kind, pk, pre['right'], 10, tw=tw)
     n = 0
     for signer in ('receiver', 'refund', 'outsider'):
-        for choice in ('right', 'wrong', 'filler'):
+        for choice in ('right', 'wrong', 'filler', 'filler2', 'filler32', 'filler-1'):
             for dt in (-1, 0):
                 n += 1
                 t = T0 + 10 + dt
